@@ -94,7 +94,7 @@ func accountedV1(s *cdpSnap) map[string]*big.Int {
 }
 
 func (m *c10Mon) custody(mod string, acc map[string]*big.Int, fees map[string]*big.Int, post *cdpSnap, e *cdpEvent, ctx string) {
-	for _, d := range cdpDenoms {
+	for _, d := range m.u.denomList() {
 		bal := post.bal(modLabel(mod), d)
 		a := acc[d]
 		if a == nil {
@@ -164,7 +164,7 @@ func (m *c10Mon) Observe(pre, post *cdpSnap, e *cdpEvent) {
 		}
 	}
 	m.collectorOut = map[string]*big.Int{}
-	for _, d := range cdpDenoms {
+	for _, d := range u.denomList() {
 		if out := bigSub(pre.bal(modLabel(collectortypes.ModuleName), d), post.bal(modLabel(collectortypes.ModuleName), d)); out.Sign() > 0 {
 			m.collectorOut[d] = out
 		}
@@ -257,6 +257,11 @@ func (m *c10Mon) Observe(pre, post *cdpSnap, e *cdpEvent) {
 		if !b.AuctionType {
 			continue
 		}
+		// the app's configured premium (start = oracle * premium) and discount (end = start * discount)
+		prem, disc := m.premV2, m.discV2
+		if w, ok := u.c.App.NewliqKeeper.GetLiquidationWhiteListing(u.c.Ctx(), b.AppId); ok && w.DutchAuctionParam != nil {
+			prem, disc = w.DutchAuctionParam.Premium, w.DutchAuctionParam.Discount
+		}
 		m.rec.Eval(1)
 		det := func() map[string]interface{} {
 			return map[string]interface{}{"event": e.String(), "auction": id, "posted": b.CollateralTokenAuctionPrice.String(), "initial": b.CollateralTokenInitialPrice.String(), "oracle": b.CollateralTokenOraclePrice.String(), "start": b.StartTime.String()}
@@ -264,7 +269,7 @@ func (m *c10Mon) Observe(pre, post *cdpSnap, e *cdpEvent) {
 		if b.CollateralTokenAuctionPrice.GT(b.CollateralTokenInitialPrice) {
 			m.rec.Violate("C10/price/gen2/posted-above-start-price", "posted price above the start price", det())
 		}
-		if end := b.CollateralTokenInitialPrice.Mul(m.discV2); b.CollateralTokenAuctionPrice.LT(end.Sub(sdk.NewDecWithPrec(1, 12))) {
+		if end := b.CollateralTokenInitialPrice.Mul(disc); b.CollateralTokenAuctionPrice.LT(end.Sub(sdk.NewDecWithPrec(1, 12))) {
 			m.rec.Violate("C10/price/gen2/posted-below-end-price", fmt.Sprintf("posted price below the configured end price %s", end), det())
 		}
 		if a, ok := pre.AucV2[id]; ok {
@@ -278,10 +283,7 @@ func (m *c10Mon) Observe(pre, post *cdpSnap, e *cdpEvent) {
 			}
 		}
 		if a, ok := pre.AucV2[id]; !ok || !a.StartTime.Equal(b.StartTime) { // (re)started in this event: start price = oracle price in force * premium
-			want := sdk.NewDecFromInt(sdk.NewIntFromUint64(pre.Price[b.CollateralAssetId])).Mul(m.premV2)
-			if e.Kind == "tx" {
-				want = sdk.NewDecFromInt(sdk.NewIntFromUint64(pre.Price[b.CollateralAssetId])).Mul(m.premV2)
-			}
+			want := sdk.NewDecFromInt(sdk.NewIntFromUint64(pre.Price[b.CollateralAssetId])).Mul(prem)
 			if b.CollateralTokenInitialPrice.GT(want.Add(sdk.NewDecWithPrec(1, 12))) {
 				m.rec.Violate("C10/price/gen2/start-price-above-oracle-times-premium", fmt.Sprintf("start price %s > oracle*premium %s", b.CollateralTokenInitialPrice, want), det())
 			}
@@ -375,6 +377,11 @@ func TestC10(t *testing.T) {
 		}
 		u.c.Close()
 	}
+	for run := 0; run < ev.Pick(1, 3); run++ {
+		c10LendRun(t, rec, run)
+	}
+	rec.Floor("bids_checked_gen2-lend", 5)
+	rec.Floor("auctions_opened_gen2_lend", 3)
 	rec.Floor("auctions_closed_gen2", 5)
 	rec.Floor("auctions_closed_gen1", 2)
 	rec.Floor("bids_checked_gen2-vault", 10)
